@@ -158,7 +158,7 @@ def tlc(module, cfg, files=None, workers=None, timeout=600, args=None, keep=None
             cmd += list(args)
         cmd.append(module + ".tla")
         env = dict(os.environ)
-        jo = "-Xss64m"
+        jo = "" if (java_opts and "-Xss" in java_opts) else "-Xss32m"
         if java_opts:
             jo += " " + java_opts
         env["JAVA_TOOL_OPTIONS"] = (env.get("JAVA_TOOL_OPTIONS", "") + " " + jo).strip()
@@ -247,7 +247,7 @@ def validate_trace(module, cfg, trace_path, timeout=900, java_opts=None, extra_f
     if extra_files:
         ef.update(extra_files)
     r = tlc(module, cfg, workers=1, timeout=timeout, extra_files=ef,
-            java_opts=java_opts or "-Xmx2g -XX:TieredStopAtLevel=1 -XX:ParallelGCThreads=2", quiet=True)
+            java_opts=java_opts or "-Xmx2g -Xss16m -XX:TieredStopAtLevel=1 -XX:ParallelGCThreads=1 -XX:CICompilerCount=1", quiet=True)
     line = 0
     if r.kind in ("invariant", "action"):
         try:
